@@ -8,8 +8,9 @@ from . import refcodec as rc
 
 
 class RecFace(Face):
-    def __init__(self):
+    def __init__(self, local=True):
         super().__init__()
+        self.local = local      # what isLocalFace() answers (a forwarder on this machine / on another one)
         self.sent = []          # (t_ms, bytes)
         self._closed = None
         self.on_send = None     # optional callable(bytes) (scripted peers)
@@ -41,7 +42,7 @@ class RecFace(Face):
         await self._closed
 
     def isLocalFace(self):
-        return True
+        return self.local
 
     # ---- delivery
     @staticmethod
